@@ -47,6 +47,21 @@ Example saved_is_latest_hypotheses_met :
   Forall wf_event example_history /\ consistent example_history /\ case_distinct example_history.
 Proof. exact (conj example_wf (conj example_consistent example_case_distinct)). Qed.
 
+(* ... and what start-up had read from the file and this run did not publish again is still in the file: the
+   latest value of a topic last published in an earlier run is the stored one. *)
+Theorem saved_keeps_what_was_stored :
+  forall (cfg : config) (d : fs entry) (h : list event) (now : value),
+    Forall wf_event h -> consistent h -> case_distinct h -> NoDup (map fst cfg) ->
+    let y := fst (run (init_sys cfg d) h) in
+    let y' := fst (step y (SaveTick now [])) in
+    exists saved,
+      snd (startup (disk y')) = Some saved /\
+      forall k v, In (k, v) cfg ->
+                  (forall t, In t (updated_tags h ++ ["CURRENTTIME"; "___1"; "___2"]%string) -> touches t k = false) ->
+                  slookup k saved = Some v.
+Proof. exact saved_keeps. Qed.
+Print Assumptions saved_keeps_what_was_stored.
+
 (* ... and the save does happen: for ALL histories, when some persistent topic received a new value since the
    last save, the delayed-save timer is running (an observer who waits sees a save). *)
 Theorem change_makes_save_due :
@@ -121,8 +136,8 @@ Print Assumptions save_crash_safe_refuted_pre_fix.
 
 (* What the observable checker's "true" means, independent of the model. *)
 Theorem checker_sound :
-  forall pre e o post,
-    C16_check (pre ++ (e, o) :: post) = true ->
+  forall cfg0 pre e o post,
+    C16_check cfg0 (pre ++ (e, o) :: post) = true ->
     match e, o with
     | SendAll, Published l =>
         NoDup (map fst l) /\
@@ -135,14 +150,20 @@ Theorem checker_sound :
             (forallb negb faults = true ->          (* no operation failed: the save ran to its end *)
              length trace = 6%nat /\
              exists cfg, last reads None = Some cfg /\
-                         forall t ob, persistent_topic t = true -> last_obj t (map fst pre) = Some ob ->
-                                      slookup (to_lower t) cfg = Some ob)
+                         (forall t ob, persistent_topic t = true -> last_obj t (map fst pre) = Some ob ->
+                                       slookup (to_lower t) cfg = Some ob) /\
+                         (* keys read at start-up (cfg0) that no topic of this run maps to keep their value *)
+                         (forall k v, In (k, v) cfg0 ->
+                                      (forall t, In t (written_tags (map fst pre)) -> touches t k = false) ->
+                                      slookup k cfg = Some v))
         | None => forallb negb faults = false      (* a save gives up only when an operation failed *)
         end
     | Restart, Restored l =>
         saved_is_current (map fst pre) = true ->
-        forall t ob, persistent_topic t = true -> restorable_topic t = true ->
-                     last_obj t (map fst pre) = Some ob -> slookup (to_lower t) l = Some ob
+        (forall t ob, persistent_topic t = true -> restorable_topic t = true ->
+                      last_obj t (map fst pre) = Some ob -> slookup (to_lower t) l = Some ob) /\
+        (* what the RPC layer last put into effect (the base path in use, ...) *)
+        (forall k v, In (k, v) (in_use (map fst pre) []) -> slookup k l = Some v)
     | Wait, Waited saved => save_due (map fst pre) = true -> saved = true
     | _, _ => True
     end.
